@@ -153,6 +153,39 @@ fn one_case(ctx: &Ctx, dir: &std::path::Path, case: u64, seed: u64, rep: &mut Re
     let mut rng = Rng::new(seed);
     let opts = gen_opts(prop, &mut rng, ctx.thorough());
     let mut proj = gen_project(&mut rng, &opts);
+    // C04, one case in ten: a pool deeper than everyday ones (at or above the machine's core count) with
+    // more ready members than its depth, run with -j above the depth
+    let mut deep_pool: Option<usize> = None;
+    if prop == "C04" && rng.chance(1, 10) {
+        let depth = *rng.pick(&[8usize, 15, 16, 17, 20, 24, 32, 33]);
+        deep_pool = Some(depth);
+        let n = depth + rng.range(2, 12);
+        let mut p = Project { manifest: proj.manifest.clone(), ..Default::default() };
+        p.sources.push("in.txt".into());
+        p.pools.push(("deep".into(), depth));
+        for i in 0..n {
+            p.steps.push(Step {
+                id: format!("t{}", i),
+                outs: vec![format!("o{}", i)],
+                iouts: vec![],
+                ins: vec!["in.txt".into()],
+                imps: vec![],
+                oos: vec![],
+                vals: vec![],
+                phony: false,
+                ver: 1,
+                pool: if rng.chance(9, 10) { Some("deep".into()) } else { None },
+                rsp: None,
+                depfile: None,
+                msvc: false,
+                desc: None,
+                effect: Effect::Write,
+                extra_reads: vec![],
+                discovers: false,
+            });
+        }
+        proj = p;
+    }
     let mut cfg = CaseCfg { cyclic: None, cycle_is_validation_only: false, undeclared_pool: None };
     if matches!(prop, "C06" | "C19" | "C01" | "C18" | "C05") && rng.chance(1, 5) {
         add_regen(&mut proj, &mut rng);
@@ -303,6 +336,9 @@ fn one_case(ctx: &Ctx, dir: &std::path::Path, case: u64, seed: u64, rep: &mut Re
     inv.j = *rng.pick(&[1usize, 2, 3, 4, 8, 64]);
     if prop == "C04" {
         inv.j = *rng.pick(&[1usize, 2, 3, 4, 5, 8]);
+        if let Some(d) = deep_pool {
+            inv.j = *rng.pick(&[d + 1, d + 4, 2 * d, 64, 100]);
+        }
     }
     inv.k = *rng.pick(&[None, Some(1usize), Some(1), Some(2), Some(3), Some(100)]);
     if prop == "C05" {
